@@ -77,7 +77,13 @@ func H_C08_authenticate() {
 	flags := vU32("flags")
 	ch := &ChallengeMessage{NegotiateFlags: flags}
 	copy(ch.ServerChallenge[:], vBytes("server", 8))
-	ch.TargetInfo = vBytes("ti", vParam("tilen"))
+	if tl := vParam("tilen"); tl > 1024 {
+		// boundary instance: a target info so large that the payload offsets pass 65535 while every length still fits in
+		// 16 bits (contents fixed: only the descriptor arithmetic is of interest here)
+		ch.TargetInfo = make([]byte, tl)
+	} else {
+		ch.TargetInfo = vBytes("ti", tl)
+	}
 	user, userOEM, user16 := c08name("user", vParam("ulen"))
 	domain, domOEM, dom16 := c08name("domain", vParam("dlen"))
 	ws, wsOEM, ws16 := c08name("ws", vParam("wlen"))
@@ -175,11 +181,13 @@ func H_C08_challenge() {
 	if layout == 2 {
 		ti = nil
 	}
-	msg = append(msg, byte(len(tname)), 0, byte(len(tname)), 0, byte(tnOff), 0, 0, 0)
+	// MaxLen may exceed Len (MS-NLMP 2.2.2.x: "MaxLen SHOULD be set equal to Len by the sender and MUST be ignored on receipt")
+	slack := vParam("slack")
+	msg = append(msg, byte(len(tname)), 0, byte(len(tname)+slack), 0, byte(tnOff), 0, 0, 0)
 	msg = append(msg, byte(flags), byte(flags>>8), byte(flags>>16), byte(flags>>24))
 	msg = append(msg, server...)
 	msg = append(msg, reserved...)
-	msg = append(msg, byte(len(ti)), 0, byte(len(ti)), 0, byte(tiOff), 0, 0, 0)
+	msg = append(msg, byte(len(ti)), 0, byte(len(ti)+slack), 0, byte(tiOff), 0, 0, 0)
 	msg = append(msg, ver...)
 	if layout == 1 {
 		msg = append(msg, ti...)
